@@ -6,6 +6,7 @@ import RQ.Model.Matcher
 import Mathlib.Tactic.Linarith
 import Mathlib.Tactic.Ring
 import Mathlib.Tactic.SplitIfs
+import RQ.Lemmas.WorldA
 
 deriving instance DecidableEq for RQ.Q.MOutcome
 
@@ -388,5 +389,37 @@ theorem signal_no_price_limit_ignores_band (slip : Slip) (o : Ord) (b : MBar) (c
   cases hs : slipPrice slip o.isBuy o.isLimit o.limitPrice b (signalDeal o last) with
   | none => exact Or.inl rfl
   | some price => exact Or.inr ⟨price, rfl⟩
+
+
+/-! ### whole runs of the composed world (`RQ/Model/World.lean`) -/
+
+/-- **C06.1 for whole runs**: with price_limit on, no run of the composed world ever publishes a TRADE of a BUY order while the
+prescribed price of the bar in force is at or above limit-up, nor of a SELL order at or below limit-down -/
+theorem world_no_trade_at_limit (w : World) (ins : List WIn) (id : Nat) (q : Int) (p fee : R)
+    (h : WEv.order (.trade id q p fee) ∈ (w.run ins).2) :
+    ∃ ws ∈ RQ.Lemmas.WorldA.states w ins, ∃ (auction : Bool) (o : Ord) (wi : WIns) (d : DayIns),
+      id = o.id ∧ ws.cfg.find o.ins = some wi ∧ ws.dayOf o.ins = some d ∧
+      (ws.cfg.priceLimit = true → ∀ deal, (if auction then d.auc else d.bar).deal = some deal → 0 < deal →
+        ¬ ((o.isBuy = true ∧ ∃ u, (if auction then d.auc else d.bar).limitUp = some u ∧ u ≤ deal) ∨
+           (o.isBuy = false ∧ ∃ dn, (if auction then d.auc else d.bar).limitDown = some dn ∧ deal ≤ dn))) := by
+  obtain ⟨ws, hws, auction, o, wi, d, tv, cash, ct, cr, hid, hwi, hd, hm⟩ := RQ.Lemmas.WorldA.run_trade w ins id q p fee h
+  refine ⟨ws, hws, auction, o, wi, d, hid, hwi, hd, ?_⟩
+  intro hpl deal hdeal hpos hlim
+  have := no_fill_at_limit (ws.mcfg wi) hpl wi.cfg o (if auction then d.auc else d.bar) auction tv cash (fun _ _ => fee) (fun _ => ct)
+    deal hdeal hpos hlim
+  rw [this] at hm
+  split_ifs at hm
+
+/-- **C06.2 for whole runs**: with inactive_limit on, no TRADE is ever published against a bar whose volume is zero -/
+theorem world_no_trade_zero_volume (w : World) (ins : List WIn) (id : Nat) (q : Int) (p fee : R)
+    (h : WEv.order (.trade id q p fee) ∈ (w.run ins).2) :
+    ∃ ws ∈ RQ.Lemmas.WorldA.states w ins, ∃ (auction : Bool) (o : Ord) (wi : WIns) (d : DayIns),
+      id = o.id ∧ ws.cfg.find o.ins = some wi ∧ ws.dayOf o.ins = some d ∧
+      (ws.cfg.inactiveLimit = true → (if auction then d.auc else d.bar).volume ≠ some 0) := by
+  obtain ⟨ws, hws, auction, o, wi, d, tv, cash, ct, cr, hid, hwi, hd, hm⟩ := RQ.Lemmas.WorldA.run_trade w ins id q p fee h
+  refine ⟨ws, hws, auction, o, wi, d, hid, hwi, hd, ?_⟩
+  intro hil hv
+  exact no_fill_zero_volume (ws.mcfg wi) hil wi.cfg o (if auction then d.auc else d.bar) auction tv cash (fun _ _ => fee) (fun _ => ct) hv
+    q p ct cr hm
 
 end RQ.Props.C06
